@@ -730,4 +730,217 @@ theorem body_step (bare : Bool) (s : List Char) (v : Locals) (ps : PS) (n : Nat)
         cases hps : ps.st <;> simp [stepB, hw', h1, h2, h3a, h3b, h4', hps]
       rw [hb, hm]; rfl
 
+
+theorem digitCount_cons (c : Char) (r : List Char) :
+    digitCount (c :: r) = (if isDigit c then 1 else 0) + digitCount r := by
+  unfold digitCount
+  by_cases h : isDigit c = true <;> simp [List.filter_cons, h]; omega
+
+/-- the translated loop, started in a state that represents `ps` at index `n`, ends within its fuel exactly as the
+    model's `runB` does on the rest of the input: with the same error, or in a state that represents the result -/
+theorem loop_ok (bare : Bool) (s : List Char) (hs : ∀ c ∈ s, srcPlain c = true) :
+    ∀ (fuel : Nat) (v : Locals) (ps : PS) (n : Nat),
+    Rel bare s v.self ps → v.path_expr = s → v.self.pos = (n : Int) → n ≤ s.length → s.length - n < fuel →
+    digitCount ps.token + digitCount (s.drop n) ≤ 4300 →
+    match runB bare ps (s.drop n) with
+    | .error e => while_1.loop fuel v = .error (toExc e)
+    | .ok ps' => ∃ v', while_1.loop fuel v = .ok v' ∧ Rel bare s v'.self ps' ∧ v'.path_expr = s := by
+  intro fuel
+  induction fuel with
+  | zero => intro v ps n _ _ _ _ h; omega
+  | succ fuel ih =>
+    intro v ps n hr hpe hn hle hf hdc
+    by_cases hlt : n < s.length
+    · have hd : s.drop n = s[n] :: s.drop (n + 1) := List.drop_eq_getElem_cons hlt
+      have hget : s[n]? = some s[n] := List.getElem?_eq_getElem hlt
+      have hcs : srcPlain s[n] = true := hs _ (List.getElem_mem hlt)
+      rw [hd, digitCount_cons] at hdc
+      have hstep := body_step bare s v ps n s[n] hr hpe hn hget hcs (by omega)
+      have hcond : while_1.cond v = true := by
+        simp [while_1.cond, hn, hpe, hlt]
+      rw [hd]
+      simp only [runB]
+      unfold StepOk at hstep
+      cases hm : stepB bare ps s[n] with
+      | error e =>
+        rw [hm] at hstep
+        simp [while_1.loop, hcond, hstep]
+      | ok ps1 =>
+        rw [hm] at hstep
+        obtain ⟨v1, hb, hr1, hpe1, hn1, hdc1⟩ := hstep
+        have := ih v1 ps1 (n + 1) hr1 hpe1 hn1 (by omega) (by omega) (by omega)
+        simp only [while_1.loop, hcond, hb, if_true]
+        exact this
+    · have hn' : n = s.length := by omega
+      have hcond : while_1.cond v = false := by
+        simp [while_1.cond, hn, hpe, hn']
+      subst hn'
+      simp only [List.drop_length, runB]
+      exact ⟨v, by simp [while_1.loop, hcond], hr, hpe⟩
+
+
+/-! ### the whole of `parse` -/
+
+theorem dropWhile_head_filter {α : Type} (p : α → Bool) :
+    ∀ l : List α, (l.dropWhile p).head? = (l.filter (fun x => !p x)).head?
+  | [] => rfl
+  | a :: l => by
+    by_cases h : p a = true
+    · simp [List.dropWhile, List.filter, h, dropWhile_head_filter p l]
+    · simp [List.dropWhile, List.filter, h]
+
+theorem dropWhile_snoc {α : Type} (p : α → Bool) (c : α) (h : p c = false) :
+    ∀ l : List α, ∃ l', (l ++ [c]).dropWhile p = l' ++ [c]
+  | [] => ⟨[], by simp [List.dropWhile, h]⟩
+  | a :: l => by
+    by_cases ha : p a = true
+    · obtain ⟨l', hl⟩ := dropWhile_snoc p c h l
+      exact ⟨l', by simp [List.dropWhile, ha, hl]⟩
+    · exact ⟨a :: l, by simp [List.dropWhile, ha]⟩
+
+theorem dropWhile_cons_head {α : Type} (p : α → Bool) :
+    ∀ (l : List α) (c : α) (r : List α), l.dropWhile p = c :: r → p c = false
+  | [], _, _, h => by cases h
+  | a :: l, c, r, h => by
+    by_cases ha : p a = true
+    · simp only [List.dropWhile, ha] at h
+      exact dropWhile_cons_head p l c r h
+    · simp only [List.dropWhile, ha] at h
+      cases h
+      simpa using ha
+
+theorem rstrip_head {α : Type} (p : α → Bool) (c : α) (r : List α) (h : p c = false) :
+    (((c :: r).reverse.dropWhile p).reverse).head? = some c := by
+  obtain ⟨l', hl⟩ := dropWhile_snoc p c h r.reverse
+  simp [List.reverse_cons, hl]
+
+/-- on an input whose `str.isspace` characters are all among the six of `string.whitespace`, the first character of
+    `path_expr.strip()` is the first non-blank character -/
+theorem strip_head (s : List Char) (hs : ∀ c ∈ s, srcPlain c = true) :
+    (Py.strip s).head? = (s.filter (fun c => !isWs c)).head? := by
+  have hsp : ∀ c ∈ s, Py.isSpaceChar c = isWs c := by
+    intro c hc
+    have h := hs c hc
+    simp only [srcPlain, Bool.and_eq_true, Bool.or_eq_true] at h
+    have h3 := h.1.2
+    cases hw : isWs c with
+    | true =>
+      have : c = ' ' ∨ c = '\t' ∨ c = '\n' ∨ c = '\r' ∨ c = '\x0b' ∨ c = '\x0c' := by
+        simpa [isWs, or_assoc] using hw
+      rcases this with h | h | h | h | h | h <;> subst h <;> decide
+    | false => simpa [hw] using h3
+  have hf : s.filter (fun c => !isWs c) = s.filter (fun c => !Py.isSpaceChar c) :=
+    List.filter_congr (fun c hc => by rw [hsp c hc])
+  rw [hf, ← dropWhile_head_filter]
+  unfold Py.strip Py.rstrip Py.lstrip
+  cases hd : s.dropWhile Py.isSpaceChar with
+  | nil => rfl
+  | cons c r =>
+    have hc : Py.isSpaceChar c = false := dropWhile_cons_head _ s c r hd
+    rw [rstrip_head Py.isSpaceChar c r hc]
+    rfl
+
+theorem char_toNat_inj (a b : Char) : a = b ↔ a.toNat = b.toNat :=
+  ⟨fun h => by rw [h], fun h => Char.ext (UInt32.toNat_inj.1 h)⟩
+
+theorem strContains_first (c : Char) :
+    Py.strContains ['@', '/', '>', '0', '1', '2', '3', '4', '5', '6', '7', '8', '9', 'A', 'B', 'C', 'D', 'E', 'F', 'G',
+      'H', 'I', 'J', 'K', 'L', 'M', 'N', 'O', 'P', 'Q', 'R', 'S', 'T', 'U', 'V', 'W', 'X', 'Y', 'Z'] [c] = firstOk c := by
+  rw [Bool.eq_iff_iff]
+  simp only [Py.strContains, List.isPrefixOf, List.isEmpty, Bool.and_true, Bool.or_false, Bool.or_eq_true, beq_iff_eq,
+    firstOk, isDigit_iff, Bool.and_eq_true, decide_eq_true_eq, Char.le_def, UInt32.le_iff_toNat_le, char_toNat_inj]
+  have e : ∀ d : Char, d.val.toNat = d.toNat := fun _ => rfl
+  simp only [e]
+  have k : ∀ d : Char, d.toNat = d.toNat := fun _ => rfl
+  simp only [show ('@' : Char).toNat = 64 from rfl, show ('/' : Char).toNat = 47 from rfl, show ('>' : Char).toNat = 62 from rfl,
+    show ('0' : Char).toNat = 48 from rfl, show ('1' : Char).toNat = 49 from rfl, show ('2' : Char).toNat = 50 from rfl,
+    show ('3' : Char).toNat = 51 from rfl, show ('4' : Char).toNat = 52 from rfl, show ('5' : Char).toNat = 53 from rfl,
+    show ('6' : Char).toNat = 54 from rfl, show ('7' : Char).toNat = 55 from rfl, show ('8' : Char).toNat = 56 from rfl,
+    show ('9' : Char).toNat = 57 from rfl, show ('A' : Char).toNat = 65 from rfl, show ('B' : Char).toNat = 66 from rfl,
+    show ('C' : Char).toNat = 67 from rfl, show ('D' : Char).toNat = 68 from rfl, show ('E' : Char).toNat = 69 from rfl,
+    show ('F' : Char).toNat = 70 from rfl, show ('G' : Char).toNat = 71 from rfl, show ('H' : Char).toNat = 72 from rfl,
+    show ('I' : Char).toNat = 73 from rfl, show ('J' : Char).toNat = 74 from rfl, show ('K' : Char).toNat = 75 from rfl,
+    show ('L' : Char).toNat = 76 from rfl, show ('M' : Char).toNat = 77 from rfl, show ('N' : Char).toNat = 78 from rfl,
+    show ('O' : Char).toNat = 79 from rfl, show ('P' : Char).toNat = 80 from rfl, show ('Q' : Char).toNat = 81 from rfl,
+    show ('R' : Char).toNat = 82 from rfl, show ('S' : Char).toNat = 83 from rfl, show ('T' : Char).toNat = 84 from rfl,
+    show ('U' : Char).toNat = 85 from rfl, show ('V' : Char).toNat = 86 from rfl, show ('W' : Char).toNat = 87 from rfl,
+    show ('X' : Char).toNat = 88 from rfl, show ('Y' : Char).toNat = 89 from rfl, show ('Z' : Char).toNat = 90 from rfl]
+  omega
+
+
+/-- the `NodePath` object for a path of the model parsed from the string `s` -/
+def pathToPy (s : List Char) (p : Path) : NodePath.Self :=
+  { path_string := s, subset_slice := p.subset.map toPy, components := p.comps.map compToPy }
+
+/-- the Python outcome for an outcome of the model -/
+def resultToPy (s : List Char) : PR Path → Except Py.Exc NodePath.Self
+  | .ok p => .ok (pathToPy s p)
+  | .error e => .error (toExc e)
+
+/-- The inputs on which the translated source and the model are proved equal: every character is `srcPlain`
+    (no `+`, no `_`, no blank outside `string.whitespace`, no non-ASCII decimal digit) and the string has at most
+    4300 ASCII digits (`sys.get_int_max_str_digits()`).  Decidable. -/
+def SrcDomain (s : List Char) : Prop := (∀ c ∈ s, srcPlain c = true) ∧ digitCount s ≤ 4300
+
+instance (s : List Char) : Decidable (SrcDomain s) := by unfold SrcDomain; exact inferInstance
+
+theorem parse_src (o : NodePathParser.Self) (s : List Char) (hd : SrcDomain s) :
+    Prod.snd <$> NodePathParser.parse o s = resultToPy s (parseB o.bare_id_matches_all s) := by
+  obtain ⟨hs, hdc⟩ := hd
+  have hh := strip_head s hs
+  unfold parseB
+  cases hf : s.filter (fun c => !isWs c) with
+  | nil =>
+    rw [hf] at hh
+    have hst : Py.strip s = [] := by
+      cases h : Py.strip s with
+      | nil => rfl
+      | cons a b => rw [h] at hh; cases hh
+    simp [NodePathParser.parse, bind, Except.bind, pure, Except.pure, hst, resultToPy, toExc, pe, Functor.map, Except.map]
+  | cons c t =>
+    rw [hf] at hh
+    obtain ⟨t', hst⟩ : ∃ t', Py.strip s = c :: t' := by
+      cases h : Py.strip s with
+      | nil => rw [h] at hh; cases hh
+      | cons a b => rw [h] at hh; simp at hh; exact ⟨b, by rw [hh]⟩
+    by_cases hfo : firstOk c = true
+    · let o1 : NodePathParser.Self :=
+        { bare_id_matches_all := o.bare_id_matches_all, pos := Int.ofNat 0, current_state := some STATE_START_PARSING,
+          current_token := some [], current_id := none, current_separator := none, current_slice_elements := [],
+          node_path := NodePath.__init__ s }
+      have hr : Rel o.bare_id_matches_all s o1 {} := by
+        constructor <;> simp [o1, stateTag, hasSep, hasId, NodePath.__init__, tokOk_nil]
+      have hl := loop_ok o.bare_id_matches_all s hs (s.length + 1) ⟨o1, s, c :: t', []⟩ {} 0 hr rfl rfl
+        (by omega) (by omega) (by simpa [digitCount] using hdc)
+      simp only [List.drop_zero] at hl
+      simp only [hfo, Bool.not_true, Bool.false_eq_true, if_false]
+      cases hrun : runB o.bare_id_matches_all {} s with
+      | error e =>
+        rw [hrun] at hl
+        simp [NodePathParser.parse, bind, Except.bind, pure, Except.pure, hst, resultToPy, Functor.map, Except.map,
+          strContains_first, hfo, Py.strGetItemNat, NodePathParser.reset, o1] at hl ⊢
+        simp [hl]
+      | ok ps' =>
+        rw [hrun] at hl
+        obtain ⟨v', hlv, hr', hpe'⟩ := hl
+        simp [NodePathParser.parse, bind, Except.bind, pure, Except.pure, hst, resultToPy, Functor.map, Except.map,
+          strContains_first, hfo, Py.strGetItemNat, NodePathParser.reset, o1] at hlv ⊢
+        simp only [hlv]
+        obtain ⟨⟨b, pos, st, tok, cid, sep, elems, ⟨pstr, sub, comps⟩⟩, pexpr, pes, c0⟩ := v'
+        obtain ⟨pst, ptok, pelems, pid, psep, psub, pcomps⟩ := ps'
+        obtain ⟨g1, g2, g3, g4, g5, g6, g7, g8, g9, g10⟩ := hr'
+        simp only at g1 g2 g3 g4 g5 g6 g7 g8 g9 g10
+        subst g2 g3 g4 g7 g8 g9
+        rw [← g1]
+        clear hlv hrun hr o1 g1
+        cases ptok <;> cases hcs : createSliceB b elems <;> cases pst <;>
+          simp [finishB, addCompB, convertId, convert_id_mk, add_new_path_component_eq, stateTag,
+            STATE_START_SUBSET, STATE_START_ID, STATE_START_SUBSET_SLICE_0, STATE_START_SLICE_0,
+            STATE_START_PARSING, STATE_START_SUBSET_SLICE_X, STATE_STOP_SUBSET_SLICE, STATE_START_SLICE_X,
+            STATE_STOP_SLICE, hcs, pathToPy, toExc, pe, Py.unwrap, compToPy, bind, Except.bind, pure, Except.pure] <;>
+          simp_all [hasSep, hasId, compToPy]
+    · have hfo' : firstOk c = false := by simpa using hfo
+      simp [NodePathParser.parse, bind, Except.bind, pure, Except.pure, hst, resultToPy, toExc, pe, Functor.map,
+        Except.map, strContains_first, hfo', Py.strGetItemNat]
+
 end Bufr.PathLang
